@@ -83,6 +83,10 @@ def run_layer(c, ctx):
     return
   ctx.count("layer_cases")
   ctx.nontrivial(*[(k, str(v)) for k, v in sorted(c.items()) if k not in ("idx", "seed")])
+  try:
+    l.get_folded_weights()        # asked once *before* the parameters change: nothing may be remembered
+  except Exception:  # pylint: disable=broad-except
+    pass
   bn = l.batchnorm
   C = int(bn.moving_mean.shape[0])
   var = (c["var"] * np.abs(rs.normal(0, 1, C)) + 1e-7).astype(np.float32)
@@ -166,6 +170,22 @@ def run_layer(c, ctx):
     ctx.violation(dict(base, kind="layer_differs_from_conv_with_quantized_folded_weights", mode=c["mode"]),
                   "max |diff| = %g" % (float(np.abs(y - r).max()) if y.shape == r.shape else -1),
                   {"case": {k: str(v) for k, v in c.items()}})
+  # (3b) the bias quantizer that was *configured* (a fresh instance from the same text), not the one the
+  # layer reports: a folded layer has a folded bias whatever use_bias says
+  if c["bq"] is not None:
+    from qkeras.quantizers import get_quantizer
+    qb_cfg = np.asarray(get_quantizer(c["bq"])(tf.constant(fw[1])))
+    ctx.count("configured_bias_quantizer_checked")
+    if qs[1] is None or not np.allclose(qb_cfg, qb_, rtol=0, atol=0):
+      r2 = K.bias_add(conv(xt, tf.constant(qk_.astype(np.float32))), tf.constant(qb_cfg.astype(np.float32)))
+      if l.activation is not None:
+        r2 = l.activation(r2)
+      r2 = np.asarray(r2)
+      if y.shape != r2.shape or float(np.abs(y - r2).max()) > tol:
+        ctx.violation(dict(base, kind="folded_bias_not_quantized_with_configured_quantizer", use_bias=c["use_bias"]),
+                      "bias quantizer %s configured, layer reports %s; max |diff| to the reference with the configured one = %g" % (
+                          c["bq"], qs[1], float(np.abs(y - r2).max()) if y.shape == r2.shape else -1),
+                      {"case": {k: str(v) for k, v in c.items()}})
   ctx.sample({"case": {k: v for k, v in c.items() if k not in ("idx", "seed")}, "max_abs_output": float(np.abs(y).max())})
 
 
@@ -300,6 +320,21 @@ def run_model(c, ctx):
     # same quantized tensors, different op order (bias added once): allow a few ulps
     if d < 0 or d > 8 * 2.0 ** -23 * max(1.0, float(np.abs(y_fold).max())):
       ctx.violation(dict(base, kind="unfolded_model_predictions_differ"), "max |diff| = %g" % d, {"layers": [l.name for l in model.layers]})
+  # ---- parameters changed without training (set_weights), then unfolded again: nothing may be stale
+  for ql in qm.layers:
+    if type(ql).__name__ in ("QConv2DBatchnorm", "QDepthwiseConv2DBatchnorm"):
+      ws = ql.get_weights()
+      ql.set_weights([(w * 0.5 + 0.125).astype(w.dtype) if w.ndim >= 1 and "int" not in str(w.dtype) else w for w in ws])
+  y_fold2 = np.asarray(qm(x, training=False))
+  ok, um2 = ctx.call(dict(base, op="unfold_model_again"), bn_folding_utils.unfold_model, qm)
+  if ok:
+    ctx.count("second_unfold_checked")
+    y_unf2 = np.asarray(um2(x, training=False))
+    d = float(np.abs(y_unf2 - y_fold2).max()) if y_unf2.shape == y_fold2.shape else -1
+    if d < 0 or d > 8 * 2.0 ** -23 * max(1.0, float(np.abs(y_fold2).max())):
+      ctx.violation(dict(base, kind="unfolded_model_predictions_differ_after_weight_change"),
+                    "second unfold after set_weights: max |diff| = %g (first unfold agreed)" % d,
+                    {"layers": [l.name for l in model.layers]})
   ctx.sample({"part": "model", "layers": [(type(l).__name__, l.name) for l in model.layers], "folded": folded})
 
 
